@@ -594,8 +594,52 @@ fn reopen_one<A: Allocator>(dir: &str, tag: &str, fl: Freelist, reserved: u32, b
   let _ = std::fs::remove_file(&p);
 }
 
+/// a writable session opened through the path-builder entry point must persist like one opened through map_mut
+fn builder_session<A: Allocator>(dir: &str, tag: &str, bad: &mut [u32; 6]) {
+  let p = format!("{dir}/reopen_builder_{tag}.arena");
+  let _ = std::fs::remove_file(&p);
+  {
+    let a: A = unsafe { Options::new().with_capacity(4096).with_create_new(true).with_read(true).with_write(true).map_mut::<A, _>(&p).expect("create") };
+    let _ = a.alloc_bytes(40).map(|mut b| unsafe { b.detach() });
+  }
+  let want;
+  {
+    let pb = std::path::PathBuf::from(&p);
+    let r = unsafe { Options::new().with_capacity(4096).with_read(true).with_write(true).map_mut_with_path_builder::<A, _, std::io::Error>(|| Ok(pb)) };
+    match r {
+      Ok(a) => {
+        let mut b = a.alloc_bytes(56).expect("alloc");
+        b.put_slice(&[0x7E; 56]).unwrap();
+        unsafe { b.detach() };
+        want = a.allocated();
+      }
+      Err(_) => {
+        println!("NATIVE R3 violated: [{tag}] map_mut_with_path_builder refuses a valid file");
+        bad[3] += 1;
+        let _ = std::fs::remove_file(&p);
+        return;
+      }
+    }
+  }
+  match unsafe { Options::new().with_read(true).map::<A, _>(&p) } {
+    Ok(a) => {
+      if a.allocated() != want {
+        println!("NATIVE R3 violated: [{tag}] a session opened with map_mut_with_path_builder did not reach the file: allocated() {} after reopen, {want} before closing", a.allocated());
+        bad[3] += 1;
+      }
+    }
+    Err(e) => {
+      println!("NATIVE R3 violated: [{tag}] reopen after a path-builder session failed: {e}");
+      bad[3] += 1;
+    }
+  }
+  let _ = std::fs::remove_file(&p);
+}
+
 fn reopen_check(dir: &str) -> i32 {
   let mut bad = [0u32; 6];
+  builder_session::<Arena>(dir, "sync", &mut bad);
+  builder_session::<rarena_allocator::unsync::Arena>(dir, "unsync", &mut bad);
   for (name, fl) in [("opt", Freelist::Optimistic), ("pess", Freelist::Pessimistic), ("none", Freelist::None)] {
     for reserved in [0u32, 5] {
       reopen_one::<Arena>(dir, &format!("sync_{name}"), fl, reserved, &mut bad);
